@@ -28,6 +28,9 @@ type Source struct {
 	// while ReadPacketData is still looking at the ring
 	mu     sync.Mutex
 	closed bool
+	// filter is the program of the socket filter, to be run on every frame that is read:
+	// the socket receives frames from the moment it is bound, the filter is attached later
+	filter *bpf.VM
 }
 
 // Assert that AfPacketSource conforms to the packet.ReadWriter interface
@@ -64,7 +67,22 @@ func (s *Source) SetBPFFilter(bpfFilter string, maxPacketLength int) error {
 		}
 		bpfIns = append(bpfIns, rawIns)
 	}
-	return s.handle.SetBPF(bpfIns)
+	if err = s.handle.SetBPF(bpfIns); err != nil {
+		return err
+	}
+	// Frames that arrived between the creation of the socket and this point are in the ring
+	// although they never went through the filter (a SYN+ACK of any other host on the link was
+	// reported as an open port of the scan): the same program is applied to every frame read.
+	var vm *bpf.VM
+	if ins, ok := bpf.Disassemble(bpfIns); ok {
+		if vm, err = bpf.NewVM(ins); err != nil {
+			return err
+		}
+	}
+	s.mu.Lock()
+	s.filter = vm
+	s.mu.Unlock()
+	return nil
 }
 
 func (s *Source) Close() {
@@ -93,9 +111,15 @@ func (s *Source) ReadPacketData() ([]byte, *gopacket.CaptureInfo, error) {
 			return nil, nil, io.EOF
 		}
 		data, ci, err := s.handle.ReadPacketData()
+		filter := s.filter
 		s.mu.Unlock()
 		if err == afp.ErrTimeout {
 			continue
+		}
+		if err == nil && filter != nil {
+			if n, ferr := filter.Run(data); ferr == nil && n == 0 {
+				continue
+			}
 		}
 		if err == nil && vlanTagged(&ci) {
 			continue
